@@ -48,7 +48,12 @@ fn packed_lists(rg: &mut StdRng, which: usize) -> Pats {
     let pick = |rg: &mut StdRng, pool: &[u8], lo: usize, hi: usize| -> Vec<u8> {
         (0..rg.gen_range(lo..=hi)).map(|_| pool[rg.gen_range(0..pool.len())]).collect()
     };
-    match which % 10 {
+    match which % 11 {
+        // exact pattern counts around the limits that switch variants (slim/fat, pattern limits)
+        10 => {
+            let n = [16usize, 17, 32, 33, 64, 65, 127, 128][rg.gen_range(0..8)];
+            (0..n).map(|i| vec![b'a' + (i % 13) as u8, b'A' + (i / 13) as u8, b'0' + (i % 7) as u8]).collect()
+        }
         // long patterns (the Rabin-Karp hash window is the shortest pattern: 64-bit wrap-around)
         9 => {
             let base = [63usize, 64, 65, 66, 96, 129][rg.gen_range(0..6)];
@@ -98,7 +103,7 @@ pub fn run(out_prefix: &str, shards: usize, seed: u64, scale: usize) -> PStats {
     let mut rg = gen::rng(seed, 0x9AC0_0001);
     let mut shard = 0usize;
     for i in 0..(10 * scale) {
-        let mut pats = packed_lists(&mut rg, if i % 10 == 7 { 9 } else { i });
+        let mut pats = packed_lists(&mut rg, if i % 10 == 7 { 9 } else if i % 10 == 3 { 10 } else { i });
         // the fingerprint length is min(4, shortest pattern): cycle the shortest length
         // through 1, 2, 3, 4, 5 by extending the patterns that are too short
         let want_min = 1 + i % 5;
